@@ -654,7 +654,7 @@ func (p *Parse) analyzeDefault() {
 	for _, v := range p.tarsFile.Module.Struct {
 		for i, r := range v.Mb {
 			if r.Default != "" && r.DefType == token.Name {
-				mb, enum, err := p.tarsFile.FindEnumName(r.Default, p.opt.ModuleCycle)
+				mb, enum, err := p.tarsFile.FindEnumName(r.Default, p.opt.ModuleCycle, p.opt.ModuleUpper)
 				if err != nil {
 					p.parseErr(err.Error())
 				}
@@ -663,10 +663,17 @@ func (p *Parse) analyzeDefault() {
 				}
 				defValue := utils.UpperFirstLetter(enum.Name) + "_" + utils.UpperFirstLetter(mb.Key)
 				var currModule string
+				currName := p.tarsFile.Module.Name
+				if p.opt.ModuleUpper {
+					currName = utils.UpperFirstLetter(currName)
+				}
 				if p.opt.ModuleCycle {
-					currModule = p.tarsFile.ProtoName + "_" + p.tarsFile.Module.Name
+					currModule = p.tarsFile.ProtoName + "_" + currName
+					if p.opt.ModuleUpper {
+						currModule = utils.UpperFirstLetter(currModule)
+					}
 				} else {
-					currModule = p.tarsFile.Module.Name
+					currModule = currName
 				}
 				if len(enum.Module) > 0 && currModule != enum.Module {
 					defValue = enum.Module + "." + defValue
